@@ -54,6 +54,14 @@ def run(ctx):
         raise vlib.Broken("Conc with a nested read lock does not deadlock: the reader/writer model is vacuous")
     race = drv_binary(ctx, race=True)
     lines = stress(ctx, race, 40 if q else 600, "race detector on")
+    # targets addressed BY NAME (every apply resolves its name in the shared symbol table): four builders on goroutines of their own
+    rc, o = ctx.run_bin(race, "^TestVerifConcByName$", env={"VERIF_OUT": "1", "VERIF_ROUNDS": "40" if q else "400", "VERIF_QUIET": "1"}, timeout=900)
+    if "DATA RACE" in o:
+        ctx.violation("data race reported by the race detector while independent builders mock disjoint targets BY NAME: " + o[:1500],
+                      {"family": "conc", "kind": "race-by-name", "tail": o[:3000]})
+    elif rc != 0:
+        ctx.violation("independent builders mocking disjoint targets by name: " + o[-900:], {"family": "conc", "kind": "by-name", "tail": o[-2500:]})
+    ctx.count(1)
     plain = drv_binary(ctx)
     lines2 = stress(ctx, plain, 60 if q else 1500, "no race detector (tighter timing)")
     if lines:
